@@ -8,6 +8,7 @@ from vlib import cgen, ref
 from vlib.harness import SubCheck, must, require
 
 PROPERTY_ID = "C01"
+TECHNIQUE = 'property-based testing (Hypothesis spec generators, sharded) against a numpy tensordot reference model; session sub-check over many circuits per process'
 RULE = (
     "Hypothesis-generated circuit specs (n<=5 quick / 6 thorough, <=8/14 ops, 27 built-ins, "
     "random-unitary custom gates, dagger/controlled/integer-power wrappers, arity<=4, qubit "
